@@ -307,7 +307,7 @@ theorem getAdjacencyValues_congr {nRow nCol nnz : Nat} {B : Nat → Nat → Rat}
     getAdjacencyValues nRow nCol nnz B a = getAdjacencyValues nRow nCol nnz B a' := by
   unfold getAdjacencyValues
   simp only [hv.1, hr.1, hc.1, hf, hv.2, stackValues_congr hr hc,
-    stackValues_congr hv (SameValues.refl nCol .none)]
+    stackValues_congr hv hc]
 
 theorem fit_congr {algo : Algo} {nRow nCol nnz : Nat} {B : Nat → Nat → Rat} {a a' : Args} {nIter : Int} {α : Rat}
     (hv : SameValues nRow a.values a'.values) (hr : SameValues nRow a.valuesRow a'.valuesRow)
